@@ -12,7 +12,7 @@ func rt(ty int64, m any) hx.T { return hx.C("RT", ty, m) }
 
 // every (type, method) combination once as a request and once as a notification, for an
 // unbound and for each bound routing key; the classes behind F3, F4, F12; duplicates of ids.
-func fixedCases() [][]hx.T {
+func fixedCases(tier string) [][]hx.T {
 	var out [][]hx.T
 	types := []int64{0, 1, 2, 7}
 	keys := []int64{-1, 0, 1, 2, 3, 9}
@@ -22,7 +22,7 @@ func fixedCases() [][]hx.T {
 				continue // the key only matters for chat
 			}
 			var ops []hx.T
-			ops = append(ops, hx.C("OConnect", 1, false))
+			ops = append(ops, hx.C("OConnect", 1, false, 1))
 			tag := int64(1)
 			if k >= 0 {
 				ops = append(ops, hx.C("OReq", 1, 900, rt(0, hx.C("MSetKey", k)), tag))
@@ -38,21 +38,41 @@ func fixedCases() [][]hx.T {
 		}
 	}
 	for k := int64(0); k <= 5; k++ {
-		out = append(out, []hx.T{hx.C("OConnect", 1, false), hx.C("OReq", 1, 5, hx.C("RMalformed", k), 1),
+		out = append(out, []hx.T{hx.C("OConnect", 1, false, 1), hx.C("OReq", 1, 5, hx.C("RMalformed", k), 1),
 			hx.C("ONotify", 1, hx.C("RMalformed", k), 2)})
 	}
 	// connect while the front is busy, forward at once (F12)
-	out = append(out, []hx.T{hx.C("OConnect", 1, true), hx.C("OReq", 1, 1, rt(2, "MEcho"), 1), hx.C("OReq", 1, 2, rt(0, "MEcho"), 2)})
-	out = append(out, []hx.T{hx.C("OConnect", 1, true), hx.C("OReq", 1, 1, rt(0, hx.C("MSetKey", 2)), 1), hx.C("OReq", 1, 2, rt(1, "MEcho"), 2), hx.C("ONotify", 1, rt(1, "MEcho"), 3)})
+	out = append(out, []hx.T{hx.C("OConnect", 1, true, 1), hx.C("OReq", 1, 1, rt(2, "MEcho"), 1), hx.C("OReq", 1, 2, rt(0, "MEcho"), 2)})
+	out = append(out, []hx.T{hx.C("OConnect", 1, true, 1), hx.C("OReq", 1, 1, rt(0, hx.C("MSetKey", 2)), 1), hx.C("OReq", 1, 2, rt(1, "MEcho"), 2), hx.C("ONotify", 1, rt(1, "MEcho"), 3)})
 	// same id twice, in flight at the same time, to different instances
-	out = append(out, []hx.T{hx.C("OConnect", 1, false), hx.C("OReq", 1, 7, rt(0, hx.C("MSetKey", 1)), 1), hx.C("OReq", 1, 7, rt(1, "MEcho"), 2),
+	out = append(out, []hx.T{hx.C("OConnect", 1, false, 1), hx.C("OReq", 1, 7, rt(0, hx.C("MSetKey", 1)), 1), hx.C("OReq", 1, 7, rt(1, "MEcho"), 2),
 		hx.C("OReq", 1, 7, rt(0, hx.C("MSetKey", 2)), 3), hx.C("OReq", 1, 7, rt(1, "MEcho"), 4), hx.C("OReq", 1, 7, rt(2, "MNever"), 5)})
 	// close with requests pending at a back-end; other connection unaffected
-	out = append(out, []hx.T{hx.C("OConnect", 1, false), hx.C("OConnect", 2, false), hx.C("OReq", 1, 3, rt(2, "MNever"), 1),
+	out = append(out, []hx.T{hx.C("OConnect", 1, false, 1), hx.C("OConnect", 2, false, 2), hx.C("OReq", 1, 3, rt(2, "MNever"), 1),
 		hx.C("OReq", 2, 3, rt(2, "MNever"), 2), hx.C("OReq", 1, 4, rt(2, "MEcho"), 3), hx.C("OClose", 1), hx.C("OReq", 1, 5, rt(0, "MEcho"), 4),
 		hx.C("OAdvance"), hx.C("OReq", 2, 4, rt(2, "MEcho"), 5)})
+	// session-id reuse: the time-out of a closed connection's parked request must not reach the
+	// connection that was handed its numeric id (same request id on purpose)
+	out = append(out, []hx.T{hx.C("OConnect", 1, false, 3), hx.C("OReq", 1, 1, rt(2, "MNever"), 1), hx.C("OClose", 1),
+		hx.C("OConnect", 2, false, 3), hx.C("OReq", 2, 1, rt(2, "MEcho"), 2), hx.C("OAdvance"), hx.C("OReq", 2, 2, rt(0, "MEcho"), 3)})
+	// the same across the wrap of the allocator (largest id, then 0 is skipped), keyed back-end
+	out = append(out, []hx.T{hx.C("OConnect", 1, false, 0), hx.C("OConnect", 2, false, 1), hx.C("OConnect", 3, true, 2),
+		hx.C("OReq", 1, 7, rt(0, hx.C("MSetKey", 1)), 1), hx.C("OReq", 1, 8, rt(1, "MNever"), 2), hx.C("OReq", 2, 8, rt(2, "MNever"), 3),
+		hx.C("OReq", 3, 8, rt(2, "MEcho"), 4), hx.C("OClose", 1), hx.C("OClose", 2), hx.C("OConnect", 4, false, 0), hx.C("OConnect", 5, false, 1),
+		hx.C("OConnect", 6, false, 2), hx.C("OReq", 4, 8, rt(0, "MEcho"), 5), hx.C("OReq", 5, 8, rt(2, "MNever"), 6), hx.C("OAdvance"),
+		hx.C("OReq", 4, 9, rt(2, "MEcho"), 7), hx.C("OReq", 5, 9, rt(2, "MEcho"), 8)})
+	// pipelined burst with a client that does not read: > 9999 responses pending on one
+	// connection (front-local, then forwarded); every request still gets exactly one response
+	out = append(out, []hx.T{hx.C("OConnect", 1, false, 1), hx.C("HBurst", 1, 1000, 1000, 4000, 11000, 1500),
+		hx.C("OReq", 1, 5, rt(2, "MEcho"), 1), hx.C("OReq", 1, 6, rt(0, "MFail"), 2)})
 	// largest id
-	out = append(out, []hx.T{hx.C("OConnect", 1, false), hx.C("OReq", 1, int64(4294967295), rt(2, "MEcho"), 1), hx.C("OReq", 1, int64(4294967295), rt(0, "MFail"), 2)})
+	out = append(out, []hx.T{hx.C("OConnect", 1, false, 1), hx.C("OReq", 1, int64(4294967295), rt(2, "MEcho"), 1), hx.C("OReq", 1, int64(4294967295), rt(0, "MFail"), 2)})
+	if tier == "thorough" {
+		out = append(out,
+			[]hx.T{hx.C("OConnect", 1, false, 1), hx.C("HBurst", 1, 1, 1, 8000, 13000, 0), hx.C("OReq", 1, 50000, rt(0, "MEcho"), 50000)},
+			[]hx.T{hx.C("OConnect", 1, false, 1), hx.C("OConnect", 2, false, 2), hx.C("HBurst", 1, 1, 1, 2000, 2000, 11000),
+				hx.C("OReq", 2, 5, rt(2, "MEcho"), 50000), hx.C("HBurst", 2, 1, 20000, 6000, 12000, 1000)})
+	}
 	return out
 }
 
@@ -100,15 +120,72 @@ func gen(cfg *hx.Config, i int) ([]hx.T, []string) {
 		}
 		return rt(1, hx.Pick(r, meths))
 	}
-	for len(ops) < n {
-		c := 1 + r.Int63n(nconn)
-		if !connected[c] {
-			busy := r.Intn(12) == 0
-			if busy {
-				tags["connect-busy"] = true
+	// connections are identities (tokens); each is handed a numeric session id slot: 0 = the
+	// largest id (the allocator then wraps, skipping 0), -1 just below, 1.. the small ids.
+	// A slot freed by a closed connection is recycled half of the time; now and then the slot
+	// of a LIVE connection is asked for (no such allocation: ignored).
+	nextTok := nconn + 1
+	slotOf := map[int64]int64{}
+	closedSlots := []int64{}
+	usedSlot := map[int64]bool{}
+	freshSlot := func() int64 {
+		for _, s := range []int64{hx.Pick(r, []int64{0, -1, 1, 2, 3, 4, 5, 6}), 0, 1, 2, 3, 4, 5, 6, 7, 8, 9, 10, 11, 12} {
+			if !usedSlot[s] {
+				return s
 			}
-			ops = append(ops, hx.C("OConnect", c, busy))
+		}
+		return 13
+	}
+	connect := func(c int64) {
+		busy := r.Intn(12) == 0
+		if busy {
+			tags["connect-busy"] = true
+		}
+		var slot int64
+		switch q := r.Intn(20); {
+		case q < 10 && len(closedSlots) > 0:
+			slot = hx.Pick(r, closedSlots)
+			tags["session-id-reused"] = true
+		case q == 19 && len(slotOf) > 0:
+			for _, v := range slotOf {
+				slot = v
+			}
+			tags["session-id-live-clash"] = true
+		default:
+			slot = freshSlot()
+		}
+		if slot == 0 || slot == -1 {
+			tags["session-id-wrap"] = true
+		}
+		live := false
+		for t, v := range slotOf {
+			if v == slot && connected[t] {
+				live = true
+			}
+		}
+		ops = append(ops, hx.C("OConnect", c, busy, slot))
+		if !live {
 			connected[c] = true
+			slotOf[c] = slot
+			usedSlot[slot] = true
+			for i, v := range closedSlots {
+				if v == slot {
+					closedSlots = append(closedSlots[:i], closedSlots[i+1:]...)
+					break
+				}
+			}
+		}
+	}
+	closedTok := map[int64]bool{}
+	for len(ops) < n {
+		c := 1 + r.Int63n(nextTok-1)
+		if closedTok[c] && r.Intn(3) > 0 {
+			// a new client arrives after one left
+			c = nextTok
+			nextTok++
+		}
+		if !connected[c] && !closedTok[c] {
+			connect(c)
 			continue
 		}
 		switch p := r.Intn(100); {
@@ -147,9 +224,21 @@ func gen(cfg *hx.Config, i int) ([]hx.T, []string) {
 			ops = append(ops, hx.C("OAdvance"))
 		case p < 97:
 			tags["close"] = true
+			if connected[c] && !closedTok[c] {
+				// park a request at a back-end handler that never answers before leaving, half of the time
+				if r.Intn(2) == 0 {
+					ops = append(ops, hx.C("OReq", c, mid(), rt(2, "MNever"), tag))
+					tag++
+					tags["close-with-parked-request"] = true
+				}
+				closedTok[c] = true
+				connected[c] = false
+				closedSlots = append(closedSlots, slotOf[c])
+				delete(slotOf, c)
+			}
 			ops = append(ops, hx.C("OClose", c))
 		default:
-			ops = append(ops, hx.C("OConnect", c, false)) // already connected: ignored
+			ops = append(ops, hx.C("OConnect", c, false, freshSlot())) // token already used: ignored
 		}
 	}
 	var tl []string
